@@ -12,7 +12,7 @@ ENGINE = "e1-bounded-enumeration"
 
 KINDS4 = list(itertools.product(S.ATOM_KINDS, repeat=2))
 BOUNDS = {"quick": {"tree_n": 3, "gen": 3}, "thorough": {"tree_n": 4, "gen": 4}}
-PACKAGES = {"1P": "[11] U [12P3..4]", "2P": "[UB3] O [13]", "3P": "[14][901]"}
+PACKAGES = {"1P": "[11] U [12P3..4]", "2P": "[UB3] O [13]", "3P": "[14][901]", "4P": "[1] X [2]", "5P": "[3]", "0P": "[4]"}
 
 
 def describe(tier):
